@@ -43,18 +43,26 @@ func processReadBuf(rb []byte, searchDepth int) []byte {
 
 func (c *Channel) read() {
 	defer func() {
+		verifYield("R_exit")
+
 		c.readLoopExited = true
 	}()
 
 	for {
+		verifYield("R_top")
+
 		select {
 		case <-c.done:
 			return
 		default:
 		}
 
+		verifYield("R_read")
+
 		b, err := c.t.Read()
 		if err != nil {
+			verifYield("R_chk")
+
 			select {
 			case <-c.done:
 				// this prevents us from ever writing to, what would in this case be, a closed
@@ -63,6 +71,8 @@ func (c *Channel) read() {
 				return
 			default:
 			}
+
+			verifYield("R_eof")
 
 			if errors.Is(err, io.EOF) {
 				// the underlying transport was closed so just return, we *probably* will have
@@ -77,7 +87,11 @@ func (c *Channel) read() {
 				"encountered error reading from transport during channel read loop. error: %s", err,
 			)
 
+			verifYield("R_send")
+
 			c.Errs <- err
+
+			verifYield("R_sent")
 
 			time.Sleep(c.ReadDelay)
 
@@ -116,11 +130,15 @@ func (c *Channel) read() {
 // errors on the Errs channel (these would come from the underlying transport), the error is
 // returned with nil for the byte slice.
 func (c *Channel) Read() ([]byte, error) {
+	verifYield("O_errs")
+
 	select {
 	case err := <-c.Errs:
 		return nil, err
 	default:
 	}
+
+	verifYield("O_flag")
 
 	if c.readLoopExited {
 		return nil, util.ErrConnectionError
